@@ -4,7 +4,10 @@
      OSame i = the i-th supplied instance itself, ONew r = a new instance r, OErr = raises.
    assign = false: result of the final replacing_for_path discarded (bare expression statement);
    assign = true : result kept.  Gen.assigns_final (regenerated from /repo on every run) says
-   which of the two the code currently is; the correspondence check runs that variant. *)
+   which of the two the code currently is; the correspondence check runs that variant.
+   mk is the leaf that _interpolate's return value becomes: TF (a Python float / numpy.float64) or
+   TA (a 0-d numpy array, which the float walk does not find); Gen.spline_returns_float selects it
+   for the spline in the binary64 instance. *)
 From Coq Require Import List String Bool ZArith QArith Permutation.
 From PAFC20 Require Import Gen Model Proofs1 Proofs2 Proofs3 Proofs4 Witness.
 Import ListNotations.
@@ -12,20 +15,20 @@ Open Scope list_scope.
 
 (* a query at the abscissa of an instance returns that very instance *)
 Theorem C20_known_point :
-  forall (V : Type) (leb eqb : V -> V -> bool) (ofZ : Z -> V) (interp : list V -> list V -> V -> option V),
+  forall (V : Type) (leb eqb : V -> V -> bool) (ofZ : Z -> V) (interp : list V -> list V -> V -> option V) (mk : V -> tree V),
   order_ok leb eqb ->
   forall (assign : bool) (insts : list (tree V)) (q : list string) (qv : tree V) (v : V) (ks : list V)
          (i : nat) (inst : tree V) (k : V),
   num_of ofZ qv = Some v -> keys_of ofZ q insts = Some ks -> distinct eqb ks ->
   nth_error insts i = Some inst -> abscissa ofZ q inst = Some k -> eqb k v = true ->
-  interp_at leb eqb ofZ interp assign insts q qv = OSame i.
+  interp_at leb eqb ofZ interp mk assign insts q qv = OSame i.
 Proof. exact @known_point. Qed.
 
 (* and an input instance is returned only when it has the requested abscissa *)
 Theorem C20_known_point_only :
-  forall (V : Type) (leb eqb : V -> V -> bool) (ofZ : Z -> V) (interp : list V -> list V -> V -> option V)
+  forall (V : Type) (leb eqb : V -> V -> bool) (ofZ : Z -> V) (interp : list V -> list V -> V -> option V) (mk : V -> tree V)
          (assign : bool) (insts : list (tree V)) (q : list string) (qv : tree V) (i : nat),
-  interp_at leb eqb ofZ interp assign insts q qv = OSame i ->
+  interp_at leb eqb ofZ interp mk assign insts q qv = OSame i ->
   forall ks, keys_of ofZ q insts = Some ks -> distinct eqb ks ->
   exists v inst k, num_of ofZ qv = Some v /\ nth_error insts i = Some inst /\
                    abscissa ofZ q inst = Some k /\ eqb k v = true.
@@ -34,15 +37,15 @@ Proof. exact @same_sound. Qed.
 (* otherwise every float leaf found in the first instance is interp(x, y, value) with x the sorted
    abscissae and y the values of that leaf in the instances holding those abscissae *)
 Theorem C20_per_leaf :
-  forall (V : Type) (leb eqb : V -> V -> bool) (ofZ : Z -> V) (interp : list V -> list V -> V -> option V),
+  forall (V : Type) (leb eqb : V -> V -> bool) (ofZ : Z -> V) (interp : list V -> list V -> V -> option V) (mk : V -> tree V),
   order_ok leb eqb ->
   forall (assign : bool) (template : tree V) (rest : list (tree V)) (q : list string) (qv r : tree V),
   wf template = true -> is_obj template ->
-  interp_at leb eqb ofZ interp assign (template :: rest) q qv = ONew r ->
+  interp_at leb eqb ofZ interp mk assign (template :: rest) q qv = ONew r ->
   forall ks, keys_of ofZ q (template :: rest) = Some ks -> distinct eqb ks ->
   exists v, num_of ofZ qv = Some v /\
     forall p, In p (fpaths template) -> (assign = true -> p <> qkeys q) ->
-      exists y ys, get p r = Some (TF y) /\ interp (sort_keys leb ks) ys v = Some y /\
+      exists y ys, get p r = Some (mk y) /\ interp (sort_keys leb ks) ys v = Some y /\
         Forall2 (fun x y' => exists inst, In inst (template :: rest) /\ abscissa ofZ q inst = Some x /\
                                           value_at ofZ p inst = Some y') (sort_keys leb ks) ys.
 Proof. exact @per_leaf. Qed.
@@ -50,52 +53,50 @@ Proof. exact @per_leaf. Qed.
 (* nothing else changes: every path that is not above or below an interpolated leaf (or the
    variable, when it is assigned) reads as in the first instance *)
 Theorem C20_frame :
-  forall (V : Type) (leb eqb : V -> V -> bool) (ofZ : Z -> V) (interp : list V -> list V -> V -> option V)
+  forall (V : Type) (leb eqb : V -> V -> bool) (ofZ : Z -> V) (interp : list V -> list V -> V -> option V) (mk : V -> tree V)
          (assign : bool) (template : tree V) (rest : list (tree V)) (q : list string) (qv r : tree V),
   wf template = true -> is_obj template ->
-  interp_at leb eqb ofZ interp assign (template :: rest) q qv = ONew r ->
+  interp_at leb eqb ofZ interp mk assign (template :: rest) q qv = ONew r ->
   forall p', (forall p, In p (fpaths template) -> comparable p p' = false) ->
              (assign = true -> comparable (qkeys q) p' = false) ->
              get p' r = get p' template.
 Proof. exact @frame. Qed.
 
-(* the interpolation variable equals the requested value -- FULL statement, holds for the variant
-   of the code that keeps the result of the final replacing_for_path *)
+(* the interpolation variable equals the requested value (variant that keeps the result of the final
+   replacing_for_path) ... *)
 Theorem C20_variable :
-  forall (V : Type) (leb eqb : V -> V -> bool) (ofZ : Z -> V) (interp : list V -> list V -> V -> option V)
+  forall (V : Type) (leb eqb : V -> V -> bool) (ofZ : Z -> V) (interp : list V -> list V -> V -> option V) (mk : V -> tree V)
          (template : tree V) (rest : list (tree V)) (q : list string) (qv r : tree V),
-  interp_at leb eqb ofZ interp true (template :: rest) q qv = ONew r -> get (qkeys q) r = Some qv.
+  interp_at leb eqb ofZ interp mk true (template :: rest) q qv = ONew r -> get (qkeys q) r = Some qv.
 Proof. exact @variable_assigned. Qed.
 
-(* the same statement is FALSE for the variant that discards that result (whatever the routine) *)
-Theorem C20_variable_refuted :
-  exists (insts : list (tree Z)) (q : list string) (qv r : tree Z),
-    interp_at Z.leb Z.eqb (fun z => z) (fun _ _ v => Some v) false insts q qv = ONew r /\
-    get (qkeys q) r <> Some qv.
-Proof. exact variable_refuted_witness. Qed.
+(* ... and that IS the code: with Gen.assigns_final as regenerated from the source *)
+Theorem C20_variable_code :
+  forall (V : Type) (leb eqb : V -> V -> bool) (ofZ : Z -> V) (interp : list V -> list V -> V -> option V) (mk : V -> tree V)
+         (template : tree V) (rest : list (tree V)) (q : list string) (qv r : tree V),
+  interp_at leb eqb ofZ interp mk assigns_final (template :: rest) q qv = ONew r -> get (qkeys q) r = Some qv.
+Proof. exact @variable_assigned. Qed.
 
-(* what remains true for that variant: a float-typed variable ends up equal to the requested value
-   exactly when the routine reproduces the data x -> x at that value *)
-Theorem C20_variable_partial :
-  forall (V : Type) (leb eqb : V -> V -> bool) (ofZ : Z -> V) (interp : list V -> list V -> V -> option V),
+(* a query on a series of same-shape instances with distinct abscissae never raises, provided the
+   external routine accepts those abscissae *)
+Theorem C20_defined :
+  forall (V : Type) (leb eqb : V -> V -> bool) (ofZ : Z -> V) (interp : list V -> list V -> V -> option V) (mk : V -> tree V),
   order_ok leb eqb ->
-  forall (template : tree V) (rest : list (tree V)) (q : list string) (qv r : tree V),
-  wf template = true -> is_obj template ->
-  interp_at leb eqb ofZ interp false (template :: rest) q qv = ONew r ->
-  forall ks, keys_of ofZ q (template :: rest) = Some ks -> distinct eqb ks ->
-  In (qkeys q) (fpaths template) ->
-  exists v, num_of ofZ qv = Some v /\
-    (interp (sort_keys leb ks) (sort_keys leb ks) v = Some v -> get (qkeys q) r = Some (TF v)).
-Proof. exact @variable_discarded. Qed.
+  forall (assign : bool) (insts : list (tree V)) (q : list string) (qv : tree V) (ks : list V) (F : list path) (v : V),
+  insts <> [] -> keys_of ofZ q insts = Some ks -> distinct eqb ks -> same_shape F insts ->
+  num_of ofZ qv = Some v ->
+  (forall ys, List.length ys = List.length ks -> exists y, interp (sort_keys leb ks) ys v = Some y) ->
+  interp_at leb eqb ofZ interp mk assign insts q qv <> OErr.
+Proof. exact @defined. Qed.
 
 (* the order in which the series is supplied does not matter: same instance at a known point, same
    interpolated leaves otherwise, an error in one order iff in the other *)
 Theorem C20_order_free :
-  forall (V : Type) (leb eqb : V -> V -> bool) (ofZ : Z -> V) (interp : list V -> list V -> V -> option V),
+  forall (V : Type) (leb eqb : V -> V -> bool) (ofZ : Z -> V) (interp : list V -> list V -> V -> option V) (mk : V -> tree V),
   order_ok leb eqb ->
   forall (assign : bool) (insts insts' : list (tree V)) (q : list string) (qv : tree V) (ks : list V) (F : list path),
   Permutation insts insts' -> keys_of ofZ q insts = Some ks -> distinct eqb ks -> same_shape F insts ->
-  match interp_at leb eqb ofZ interp assign insts q qv, interp_at leb eqb ofZ interp assign insts' q qv with
+  match interp_at leb eqb ofZ interp mk assign insts q qv, interp_at leb eqb ofZ interp mk assign insts' q qv with
   | OSame i, OSame j => nth_error insts' j = nth_error insts i /\ nth_error insts i <> None
   | ONew r, ONew r' => forall p, In p F -> get p r' = get p r
   | OErr, OErr => True
@@ -144,7 +145,8 @@ Proof. exact linear_trend_lsq. Qed.
 
 Print Assumptions C20_known_point.
 Print Assumptions C20_per_leaf.
-Print Assumptions C20_variable_refuted.
+Print Assumptions C20_variable_code.
+Print Assumptions C20_defined.
 Print Assumptions C20_order_free.
 Print Assumptions C20_linear_exact.
 Print Assumptions C20_linear_trend_lsq.
